@@ -31,8 +31,8 @@ ASSUMPTIONS = [
 
 
 def plan(tier, seed):
-    n = 60 if tier == "quick" else 1500
-    return [{"name": "perfect-%d" % p, "n": n} for p in range(10 if tier == "quick" else 16)]
+    n = 220 if tier == "quick" else 4000
+    return [{"name": "perfect-%d" % p, "n": n} for p in range(16)]
 
 
 # ----------------------------------------------------------------------
